@@ -1,5 +1,5 @@
 //! slicec-bounded <check>   -- prints one JSON object per counterexample (at most 5) and a summary.
-//! checks: plugin (C19)  preproc (C06)  decode (C11)  totals (C07)  visitor (C20)  fileset (C17)  lexical (C01)  snippet (C09)  lints (C13)  spans (C09)  request (C08)  comments (C16)  fidelity (C02)  scopes (C03)
+//! checks: plugin (C19)  preproc (C06)  decode (C11)  totals (C07)  visitor (C20)  fileset (C17)  lexical (C01)  snippet (C09)  lints (C13)  spans (C09)  request (C08)  comments (C16)  fidelity (C02)  scopes (C03)  rules (C04)
 use std::collections::{BTreeMap, HashMap, HashSet};
 
 mod oracle_comments;
@@ -16,6 +16,7 @@ mod definition_types;
 #[path = "@REPO@/slicec/src/slice_file_converter.rs"]
 #[allow(dead_code, unused)]
 mod slice_file_converter;
+mod oracle_rules;
 mod oracle_scopes;
 mod oracle_snippet;
 mod oracle_spans;
@@ -76,7 +77,7 @@ impl Report {
             *n <= 2 && self.panic_sites.len() <= 40
         } else {
             self.other += 1;
-            self.other <= 40
+            self.other <= 400
         };
         if print {
             println!("{{\"counterexample\":{{\"check\":{},\"input\":{},\"expected\":{},\"got\":{}}}}}", js(self.check), js(input), js(expected), js(&got));
@@ -113,9 +114,10 @@ fn main() {
         "comments" => oracle_comments::run(),
         "fidelity" => oracle_fidelity::run(),
         "scopes" => oracle_scopes::run(),
+        "rules" => oracle_rules::run(),
         "one" => oracle_lexical::one(&std::env::args().nth(2).unwrap_or_default()),
         _ => {
-            eprintln!("usage: slicec-bounded plugin|preproc|decode|totals|visitor|fileset|lexical|snippet|lints|spans|request|comments|fidelity|scopes");
+            eprintln!("usage: slicec-bounded plugin|preproc|decode|totals|visitor|fileset|lexical|snippet|lints|spans|request|comments|fidelity|scopes|rules");
             2
         }
     };
